@@ -30,6 +30,22 @@ func Main() {
 	if name == "" {
 		return
 	}
+	// die with the worker: a watchdog that kills the worker must not leave children behind
+	if pp := os.Getenv("VERIF_PARENT_PID"); pp != "" {
+		var pid int
+		fmt.Sscan(pp, &pid)
+		if pid > 1 {
+			go func() {
+				for {
+					time.Sleep(2 * time.Second)
+					if err := syscall.Kill(pid, 0); err != nil {
+						fmt.Fprintln(os.Stderr, "parent worker is gone, exiting")
+						os.Exit(98)
+					}
+				}
+			}()
+		}
+	}
 	fn, ok := registry[name]
 	if !ok {
 		fmt.Fprintf(os.Stderr, "unknown child function %q\n", name)
@@ -122,7 +138,7 @@ func Run(name string, args any, o Opt) Result {
 	exe, _ := os.Executable()
 	argv := append(append([]string{}, o.Wrap...), exe)
 	cmd := exec.Command(argv[0], argv[1:]...)
-	cmd.Env = append(os.Environ(), "VERIF_CHILD="+name, "VERIF_CHILD_IN="+in, "VERIF_CHILD_OUT="+out, "VERIF_CHILD_DIR="+dir)
+	cmd.Env = append(os.Environ(), "VERIF_CHILD="+name, "VERIF_CHILD_IN="+in, "VERIF_CHILD_OUT="+out, "VERIF_CHILD_DIR="+dir, fmt.Sprintf("VERIF_PARENT_PID=%d", os.Getpid()))
 	cmd.Env = append(cmd.Env, o.Env...)
 	lf, _ := os.Create(res.LogPath)
 	cmd.Stderr = lf
